@@ -12,6 +12,7 @@ OPTS = [{'useSandT': a, 'use_closed_attrib': b, 'rel': r} for a in (False, True)
 SHAPES = ['L', 'C', 'LC', 'CC', 'QQ', 'QL', 'LQC', 'AL', 'CA']
 JOINTS = ['open', 'closed', 'broken', 'broken-closed']   # continuous open / continuous and closed / one discontinuity / discontinuous but ending where it starts
 REVISIT_SHAPES = ['CCCC', 'LCCL', 'QQQQ', 'LQQC']   # closed paths that pass through their start point in the middle
+LOOP_SHAPES = ['LCL', 'LQL', 'LCCL']                 # closed paths whose closing Line starts where an earlier curve (a loop) starts
 SPIKE_SHAPES = ['CLLC', 'QLLQ', 'CLAC']               # open paths that leave a point after a curve and come back to it before the next curve
 
 
@@ -69,6 +70,10 @@ def build(c, kinds, joints):
         corner[n // 2] = corner[0]
     if joints == 'spike':
         corner[n - 1] = corner[1]
+    if joints == 'closed-loop':
+        corner[n] = corner[0]
+        for i in range(2, n):
+            corner[i] = corner[1]
     segs = []
     for i, k in enumerate(kinds):
         s = corner[i]
@@ -76,7 +81,7 @@ def build(c, kinds, joints):
             s = c.cplx('W')
             c.assume(ops.ne(s, corner[i]))
         e = corner[i + 1]
-        if not (n == 1 and joints == 'closed'):
+        if not (n == 1 and joints == 'closed') and not (joints == 'closed-loop' and k != 'L'):
             c.assume(ops.ne(s, e))                   # no zero-length Line segments (quantifier of the property)
         if k == 'L':
             segs.append(c.new('path.Line', s, e))
@@ -116,6 +121,14 @@ def _params(euf):
             if euf and o['rel']:
                 continue
             d = dict(o, kinds=k, joints='revisit', _no_bounded=True)
+            if euf:
+                d['_euf'] = True
+            ps.append(d)
+    for k in LOOP_SHAPES:
+        for o in OPTS:
+            if euf and o['rel']:
+                continue
+            d = dict(o, kinds=k, joints='closed-loop', _no_bounded=True)
             if euf:
                 d['_euf'] = True
             ps.append(d)
@@ -171,3 +184,72 @@ def d_roundtrip(c, kinds, joints, useSandT, use_closed_attrib, rel):
           note="EUF back end: in absolute form the re-parsed path 'compares equal' (float ==)")
 def d_roundtrip_absolute_is_bit_exact(c, kinds, joints, useSandT, use_closed_attrib, rel):
     _roundtrip(c, kinds, joints, useSandT, use_closed_attrib, rel, '(bit-exact)', c.exact_eq)
+
+
+@contract('C01', 'path.Path.d', params=[{'_bounded_only': True}])
+def d_roundtrip_on_paths_that_revisit_their_points_sampled(c):
+    """bounded stand-in for the whole statement, aimed at what the per-shape contracts enumerate
+    by hand: paths of 2..6 segments of all four kinds whose end points are drawn from a pool of
+    FOUR points (so that subpaths, spikes, loops, closed and re-visited points all occur), under
+    all 8 option combinations: parse_path(p.d(...)) has the same segments (exactly for absolute
+    output, to 1e-9 for relative output); half-integer coordinates keep the arithmetic exact"""
+    import random
+    import svgpathtools.path as sp
+    from svgpathtools.parser import parse_path
+    rng = random.Random(int(abs(c.real('seed')) * 1e9) % (2 ** 31))
+    pool = [complex(rng.randint(-8, 8) / 2.0, rng.randint(-8, 8) / 2.0) for _ in range(4)]
+    c.assume(len(set(pool)) == 4)
+
+    def pt():
+        return complex(rng.randint(-12, 12) / 2.0, rng.randint(-12, 12) / 2.0)
+    segs, cur = [], rng.choice(pool)
+    for _ in range(rng.randint(2, 6)):
+        start = cur if rng.random() < 0.8 else rng.choice(pool)
+        kind = rng.choice('LLQCA')
+        end = rng.choice(pool)
+        if kind in 'LA' and end == start:
+            end = rng.choice([p for p in pool if p != start])
+        if kind == 'L':
+            segs.append(sp.Line(start, end))
+        elif kind == 'Q':
+            segs.append(sp.QuadraticBezier(start, pt(), end))
+        elif kind == 'C':
+            c1 = pt()
+            if segs and isinstance(segs[-1], sp.CubicBezier) and segs[-1].end == start and rng.random() < 0.5:
+                c1 = 2 * start - segs[-1].control2            # a smooth joint: S may be written
+            segs.append(sp.CubicBezier(start, c1, pt(), end))
+        else:
+            segs.append(sp.Arc(start, complex(rng.randint(1, 8) / 2.0 + 20, rng.randint(1, 8) / 2.0 + 20), rng.choice([0.0, 30.0, 90.0]),
+                               rng.random() < 0.5, rng.random() < 0.5, end))
+        cur = end
+    path = sp.Path(*segs)
+    bad = []
+    for useSandT in (False, True):
+        for use_closed_attrib in (False, True):
+            for rel in (False, True):
+                d = path.d(useSandT=useSandT, use_closed_attrib=use_closed_attrib, rel=rel)
+                try:
+                    back = parse_path(d)
+                except Exception as e:
+                    bad.append((d, 'raised %s' % type(e).__name__))
+                    continue
+                same = len(back) == len(path)
+                if same:
+                    for a, b in zip(path, back):
+                        if type(a) is not type(b):
+                            same = False
+                            break
+                        fa = [a.start, a.end] + ([a.control] if isinstance(a, sp.QuadraticBezier) else []) + \
+                             ([a.control1, a.control2] if isinstance(a, sp.CubicBezier) else []) + \
+                             ([a.radius, complex(a.rotation, 0), complex(bool(a.large_arc), bool(a.sweep))] if isinstance(a, sp.Arc) else [])
+                        fb = [b.start, b.end] + ([b.control] if isinstance(b, sp.QuadraticBezier) else []) + \
+                             ([b.control1, b.control2] if isinstance(b, sp.CubicBezier) else []) + \
+                             ([b.radius, complex(b.rotation, 0), complex(bool(b.large_arc), bool(b.sweep))] if isinstance(b, sp.Arc) else [])
+                        tol = 1e-9 if rel else 0.0
+                        if any(abs(x - y) > tol for x, y in zip(fa, fb)):
+                            same = False
+                            break
+                if not same:
+                    bad.append((d, [str(s) for s in path]))
+    c.bad_examples = bad[:2]
+    c.ensures('every-option-combination-round-trips', not bad)
